@@ -22,7 +22,7 @@ from vf import common, outcome, sched
 
 RULE = (
     "2-4 threads, each creating its own Environment (runner class per thread, mixed included), compiling its own program from a pool using ?:, ||, macros and "
-    "identifier lookups, evaluating it 2-4 times with its own (thread-specific) bindings; schedules = up to 3 (quick) / 5 (thorough) preemptions at generated "
+    "identifier lookups and a host function tag() of which every thread supplies its own implementation, evaluating it 2-4 times with its own (thread-specific) bindings; schedules = up to 3 (quick) / 5 (thorough) preemptions at generated "
     "line-step indexes with generated targets; double preemptions (A suspended inside a state-touching function, B run into one, A finishes, B continues) for fixed pairs incl. deeply "
     "nested programs; every run starts from the host's default recursion limit; thorough: every single-preemption point for fixed pairs, and a free-running stress (switch interval 1 us). "
     "non-trivial = at least one preemption took effect while the preempted thread was inside the library and another thread then ran library lines. "
@@ -52,6 +52,10 @@ PROGRAMS = [
     # deeply nested: needs more Python frames than the interpreter's default recursion limit allows (the library raises the limit itself)
     "(" * 45 + "x + y" + ")" * 45,
     "[" * 30 + "x" + "]" * 30 + " == " + "[" * 30 + "y" + "]" * 30,
+    # host functions: every thread supplies its OWN implementation of tag() to its own program (threads 0-2 as a list, thread 3 as a dict)
+    "tag(x) + y",
+    "x.tag() > 0 ? tag(y) : tag(x)",
+    "[x, y].map(i, tag(i))",
 ]
 DEEP = (19, 20)
 HOST_RECURSION_LIMIT = 1000  # CPython's default: what a host application that never touched it has
@@ -78,13 +82,23 @@ def bindings_for(thread: int, k: int) -> Dict[str, Any]:
     return {"x": ct.IntType(base + k), "y": ct.IntType((base * 7 + k * 3) % 11 - 5)}
 
 
+def host_functions(thread: int) -> Any:
+    """This thread's own tag(): the result names the thread, so another thread's implementation shows in the outcome."""
+
+    def tag(v):
+        return ct.IntType(int(v) * 10 + thread + 1)
+
+    return {"tag": tag} if thread == 3 else [tag]
+
+
 def make_body(thread: int, runner: str, prog: int, nevals: int):
     def body() -> List[Any]:
         out: List[Any] = []
         try:
             env = celpy.Environment(runner_class=RUNNERS[runner])
             ast = env.compile(PROGRAMS[prog])
-            prgm = env.program(ast)
+            # (only the programs that call tag() are given it: the compiled runner cannot be given a nested function at all - a recorded finding of C14)
+            prgm = env.program(ast, functions=host_functions(thread)) if "tag(" in PROGRAMS[prog] else env.program(ast)
         except Exception as ex:
             return [("crash", type(ex).__name__, "setup")]
         for k in range(nevals):
@@ -101,6 +115,7 @@ def make_body(thread: int, runner: str, prog: int, nevals: int):
 
 _ALONE: Dict[Tuple, Tuple[Any, int]] = {}
 _HOT: Dict[Tuple, List[int]] = {}
+_HOT_NAMES: Dict[Tuple, List[str]] = {}
 HOT_FUNCTIONS = {"evaluate", "transpile", "program", "parse", "result"}
 
 
@@ -112,6 +127,7 @@ def alone(thread: int, runner: str, prog: int, nevals: int) -> Tuple[Any, int]:
         names = getattr(sched.run_alone, "last_step_names", [])
         # steps (1-based) at which this thread, running alone, is inside one of the functions that touch process-wide state
         _HOT[key] = [i + 1 for i, nm in enumerate(names) if nm in HOT_FUNCTIONS or nm.startswith(("function_", "macro_", "tz_", "get"))]
+        _HOT_NAMES[key] = [nm for nm in names if nm in HOT_FUNCTIONS or nm.startswith(("function_", "macro_", "tz_", "get"))]
     return _ALONE[key]
 
 
@@ -200,28 +216,40 @@ def _in_thread(body) -> Any:
     return box[0]
 
 
-def double_preemption(run: common.Run, pairs: List[Tuple[Tuple, Tuple]], report, per_pair: int, offset: int = 0) -> int:
+def _representatives(key: Tuple, per_name: int, offset: int) -> List[int]:
+    """Steps at which the thread, running alone, is inside a state-touching function: for every such function (evaluate, program, parse, transpile, result,
+    function_*, macro_* ...) its first line, and per_name - 1 further lines spread over its occurrences (rotated by offset)."""
+    steps, names = _HOT.get(key, []), _HOT_NAMES.get(key, [])
+    by_name: Dict[str, List[int]] = {}
+    for st_, nm in zip(steps, names):
+        by_name.setdefault(nm, []).append(st_)
+    out: List[int] = []
+    for nm in sorted(by_name):
+        occ = by_name[nm]
+        picks = {occ[0]}
+        for j in range(1, per_name):
+            picks.add(occ[(offset * 7 + j * max(1, len(occ) // per_name)) % len(occ)])
+        out += sorted(picks)
+    return out
+
+
+def double_preemption(run: common.Run, pairs: List[Tuple[Tuple, Tuple]], report, per_name: int, offset: int = 0) -> int:
     """A is preempted inside a function that touches process-wide state, B runs until it is inside such a function too, A resumes and finishes, then B
-    continues: the schedule that exposes save/restore of a process-wide setting. B's k-th line alone is global step s1 + k after a switch at s1."""
+    continues: the schedule that exposes save/restore of a process-wide setting. B's k-th line alone is global step s1 + k after a switch at s1.
+    Every state-touching function of A is crossed with every state-touching function of B (per_name lines of each)."""
     n = 0
     for a, b in pairs:
         alone(0, *a)
         alone(1, *b)
-        hot_a, hot_b = _HOT.get((0,) + tuple(a), []), _HOT.get((1,) + tuple(b), [])
-        if not hot_a or not hot_b:
-            continue
-        m = max(1, int(per_pair ** 0.5))
-        for i in range(m):
-            s1 = hot_a[(offset * 31 + i * max(1, len(hot_a) // m)) % len(hot_a)]
-            for j in range(m):
-                k = hot_b[(offset * 17 + j * max(1, len(hot_b) // m)) % len(hot_b)]
+        for s1 in _representatives((0,) + tuple(a), per_name, offset):
+            for k in _representatives((1,) + tuple(b), per_name, offset):
                 check_schedule(run, [a, b], [(s1, 1), (s1 + k, 0)], report, fractions=False)
                 run.event("double-preemption-schedule")
                 n += 1
     return n
 
 
-DOUBLE_PAIRS = [(("C", 3, 2), ("I", 19, 2)), (("I", 0, 2), ("C", 19, 2)), (("I", 3, 2), ("I", 20, 2)), (("C", 5, 2), ("C", 12, 2)), (("I", 17, 2), ("C", 16, 2))]
+DOUBLE_PAIRS = [(("I", 21, 2), ("I", 23, 2)), (("C", 3, 2), ("I", 19, 2)), (("I", 0, 2), ("C", 19, 2)), (("I", 3, 2), ("I", 20, 2)), (("C", 5, 2), ("C", 12, 2)), (("I", 17, 2), ("C", 16, 2))]
 
 
 def replay(run: common.Run, case: dict, key: str = ""):
@@ -261,14 +289,14 @@ def exhaustive_single_preemption(run: common.Run, pairs: List[Tuple[Tuple, Tuple
     return n
 
 
-PAIRS = [(("C", 0, 2), ("C", 3, 2)), (("I", 12, 2), ("C", 15, 2)), (("C", 2, 2), ("C", 1, 2)), (("C", 8, 2), ("I", 0, 2)), (("I", 2, 2), ("C", 5, 2)), (("C", 5, 2), ("C", 5, 2)), (("C", 13, 2), ("I", 14, 2)), (("I", 16, 2), ("I", 17, 2))]
+PAIRS = [(("I", 21, 2), ("I", 22, 2)), (("C", 0, 2), ("C", 3, 2)), (("I", 12, 2), ("C", 15, 2)), (("C", 2, 2), ("C", 1, 2)), (("C", 8, 2), ("I", 0, 2)), (("I", 2, 2), ("C", 5, 2)), (("C", 5, 2), ("C", 5, 2)), (("C", 13, 2), ("I", 14, 2)), (("I", 16, 2), ("I", 17, 2))]
 
 
 def _shard(run: common.Run) -> None:
     shard = (run.seed % 1000 - 1) % 16
     n = exhaustive_single_preemption(run, PAIRS, run.fail, shard=(shard, 16))
     run.extra["exhaustive_single_preemption_runs"] = n
-    run.extra["double_preemption_runs"] = double_preemption(run, DOUBLE_PAIRS, run.fail, 100, offset=run.seed)
+    run.extra["double_preemption_runs"] = double_preemption(run, DOUBLE_PAIRS, run.fail, 4, offset=run.seed)
     campaign(run)
 
 
@@ -286,9 +314,9 @@ def main(run: common.Run) -> None:
         run.event("replayed")
     if run.tier == "quick":
         # every 16th single-preemption point of the first two pairs, then generated schedules, then a short stress
-        n = exhaustive_single_preemption(run, PAIRS[:2], run.fail, stride=8)
+        n = exhaustive_single_preemption(run, PAIRS[:3], run.fail, stride=8)
         run.extra["single_preemption_runs"] = n
-        run.extra["double_preemption_runs"] = double_preemption(run, DOUBLE_PAIRS, run.fail, 16, offset=run.seed)
+        run.extra["double_preemption_runs"] = double_preemption(run, DOUBLE_PAIRS[: 3], run.fail, 2, offset=run.seed)
         campaign(run)
         stress(run, 15, run.fail)
     else:
